@@ -4,3 +4,6 @@ open PgmVerif
 #print axioms PgmVerif.C07_lw_weight
 #print axioms PgmVerif.C07_zero_mass
 #print axioms PgmVerif.C07_forward_step
+#print axioms PgmVerif.C07_forward_law
+#print axioms PgmVerif.C07_rejection_law
+#print axioms PgmVerif.C07_lw_law
